@@ -162,7 +162,7 @@ theorem map_dataFileOf_of_core (a b : List IRec) (h : a.map core = b.map core) :
 /-- a clean set in memory is the one of UTXO.db -/
 def Clean (s : CSt) : Prop := s.dirty = false → s.tip = s.dTip ∧ s.height = s.dHeight
 
-theorem cstep_clean (s : CSt) (op : COp) (h : Clean s) : Clean (cstep .dirty s op) := by
+theorem cstep_clean (s : CSt) (op : COp) (h : Clean s) : Clean (cstep .dirty true true s op) := by
   cases op with
   | commit b => intro hd; simp [cstep] at hd
   | undo p => intro hd; simp [cstep] at hd
@@ -179,7 +179,7 @@ theorem cstep_clean (s : CSt) (op : COp) (h : Clean s) : Clean (cstep .dirty s o
     · simp
 
 theorem restart_identity (s : CSt) (h : Clean s) :
-    ((cstep .dirty s .restart).tip, (cstep .dirty s .restart).height) = (s.tip, s.height) := by
+    ((cstep .dirty true true s .restart).tip, (cstep .dirty true true s .restart).height) = (s.tip, s.height) := by
   simp only [cstep, closeWrites]
   by_cases hd : s.dirty = true
   · simp [hd, saveNow]
@@ -187,7 +187,7 @@ theorem restart_identity (s : CSt) (h : Clean s) :
     have := h hf
     simp [hf, this.1, this.2]
 
-theorem restartPairs_dirty (ops : List COp) : ∀ s, Clean s → ∀ p ∈ restartPairs .dirty s ops, p.1 = p.2 := by
+theorem restartPairs_dirty (ops : List COp) : ∀ s, Clean s → ∀ p ∈ restartPairs .dirty true true s ops, p.1 = p.2 := by
   induction ops with
   | nil => intro s _ p hp; simp [restartPairs] at hp
   | cons op ops ih =>
